@@ -34,6 +34,37 @@ type kGen struct {
 	long      *Term                 // long-term secret (scalar identity)
 }
 
+// seedStr: the identity of a suite seed. A seed that consists of all the bytes of one bit-vector term in order (a SHA-256
+// digest of symbolic data: 32 byte extracts of one uninterpreted 256-bit value) is named by that value instead of by a
+// concatenation of 32 one-byte sequences; injectivity axioms over such concatenations are what z3 chokes on.
+func (in *Interp) seedStr(seed SliceV) *Term {
+	if seed.Blob == nil && len(seed.A) >= 8 {
+		var base *Term
+		ok := true
+		n := len(seed.A)
+		for i, e := range seed.A {
+			t, isT := e.(*Term)
+			if !isT || t.op != OExtract || len(t.args) != 1 {
+				ok = false
+				break
+			}
+			hi, lo := int(t.u>>16), int(t.u&0xffff)
+			if base == nil {
+				base = t.args[0]
+			}
+			if t.args[0] != base || base.sort.W != 8*n || hi != 8*(n-i)-1 || lo != 8*(n-i)-8 {
+				ok = false
+				break
+			}
+		}
+		if ok && base != nil {
+			in.injUFs["bv2str"] = true
+			return in.ts.App("bv2str", StrSort, base)
+		}
+	}
+	return in.sliceStr(seed)
+}
+
 // schnorrSig: kyber sign/schnorr.Sign(suite, long, msg) draws its nonce k from suite.RandomStream() (schnorr.go:35) and
 // returns R || s with R = k*G. Modelled as R(nonce) ++ s(long, nonce) where nonce = the next draw of the suite's stream
 // (a seeded suite's stream is a function of its seed and the position; an unseeded one draws fresh values).
@@ -44,8 +75,9 @@ func (in *Interp) schnorrSig(g *kGen) SliceV {
 		in.opq++
 		nonce = ts.FreshSym(fmt.Sprintf("cryptorand.nonce#%d", in.opq), StrSort)
 	} else {
-		in.injUFs["kyber.pick"] = true
-		nonce = ts.App("kyber.pick", StrSort, in.sliceStr(g.suite.seed), ts.Int(int64(g.suite.draws)))
+		// the k-th value of the seeded suite's stream. Its injectivity in (seed, position) is only asserted where a harness
+		// asks for it (vf.Injective("schnorr.nonce")): the quadratic number of axioms over string-valued terms is costly
+		nonce = ts.App("schnorr.nonce", StrSort, in.seedStr(g.suite.seed), ts.Int(int64(g.suite.draws)))
 		g.suite.draws++
 	}
 	long := g.long
@@ -123,7 +155,7 @@ func registerKyberDKG(P *Program) {
 			op.Data.(*kScalar).t = in.ts.FreshSym(fmt.Sprintf("cryptorand.scalar#%d", in.opq), StrSort)
 		} else {
 			in.injUFs["kyber.pick"] = true
-			op.Data.(*kScalar).t = in.ts.App("kyber.pick", StrSort, in.sliceStr(su.seed), in.ts.Int(int64(su.draws)))
+			op.Data.(*kScalar).t = in.ts.App("kyber.pick", StrSort, in.seedStr(su.seed), in.ts.Int(int64(su.draws)))
 			su.draws++
 		}
 		return Iface{T: types.Typ[types.Int], V: op}
@@ -206,7 +238,7 @@ func registerKyberDKG(P *Program) {
 		}
 		if so, ok := args[0].(Iface).V.(*Opaque); ok {
 			if su, ok := so.Data.(*kSuite); ok && (su.seed.A != nil || su.seed.Blob != nil) {
-				g.suiteSeed = in.sliceStr(su.seed)
+				g.suiteSeed = in.seedStr(su.seed)
 			}
 			if su, ok := so.Data.(*kSuite); ok {
 				g.suite = su
